@@ -11,6 +11,7 @@ package main
 import (
 	"fmt"
 	"github.com/makiuchi-d/gozxing"
+	"github.com/makiuchi-d/gozxing/oned"
 	"sort"
 	"strings"
 
@@ -681,7 +682,19 @@ func main() {
 	chk.Assume("'margin >= default' is taken literally: a symbol written with the writer's own default margin must be readable")
 	if chk.ReplayFile() != "" {
 		var rc rcase
-		if err := mc.LoadReplay(chk.ReplayFile(), &rc); err != nil {
+		var mh mhCase
+		if err := mc.LoadReplay(chk.ReplayFile(), &mh); err == nil && mh.Kind == "multi-history" {
+			fmt.Printf("replay %+v\n", mh)
+			shared := oned.NewMultiFormatUPCEANReader(mhHints(mh.Hints))
+			mhRead(shared, mhImage(mh.Prime, mh.PrimeNum), mhHints(mh.Hints))
+			img := mhImage(mh.Target, mh.TargetNum)
+			got := mhRead(shared, img, mhHints(mh.Hints))
+			want := mhRead(oned.NewMultiFormatUPCEANReader(mhHints(mh.Hints)), img, mhHints(mh.Hints))
+			fmt.Printf("shared reader: %s; fresh reader: %s\n", got, want)
+			if got != want {
+				chk.Violation("C03/multi-history/"+mh.Target+"-after-"+mh.Prime, "replay: "+got+" vs fresh "+want, mh)
+			}
+		} else if err := mc.LoadReplay(chk.ReplayFile(), &rc); err != nil {
 			fmt.Println("cannot load replay:", err)
 		} else {
 			l := chk.NewLocal()
@@ -702,6 +715,7 @@ func main() {
 	runCodabar()
 	runRejections()
 	runReuse()
+	runMultiHistories()
 	chk.Sample("round trip", mk("upce", "0425261", "own"))
 	chk.Sample("round trip", mk("code128", "A12345\x01b", "own"))
 	chk.Sample("rejection", mk("ean13", "5901234123450", "own"))
